@@ -180,6 +180,43 @@ def h_node_info(I, job):
     I.reach('end')
 
 
+def h_o5m_deltas(I, job):
+    """o5m file with three nodes whose id / coordinate / timestamp / changeset deltas are symbolic zig-zag bytes; a reset marker before the third"""
+    import C06
+    z = {nm: I.named(nm, 7) for nm in ('id1', 'id2', 'id3', 'lon1', 'lon2', 'lon3', 'lat1', 'lat2', 'lat3', 'ts1', 'cs1')}
+    B = lambda nm: z3.ZeroExt(1, I.term(z[nm], 7))
+    n1 = [B('id1'), 1, B('ts1'), B('cs1'), 0, 5, 0, ord('u'), 0, B('lon1'), B('lat1')]
+    n2 = [B('id2'), 0, B('lon2'), B('lat2')]
+    n3 = [B('id3'), 0, B('lon3'), B('lat3')]
+    I.assume(I.term(z['ts1'], 7) != 0)             # timestamp 0 means "no author information follows" in o5m
+    f = list(C06.O5M_HDR) + [0x10, len(n1)] + n1 + [0x10, len(n2)] + n2 + ([0xff] if job['reset'] else []) + [0x10, len(n3)] + n3 + [0xfe]
+    data = I.new_obj(len(f), 'file', 'heap')
+    for k, b in enumerate(f): I.store(data + k, i8, Sym(b, 8) if z3.is_expr(b) else b)
+    I.call('@verif_set_summary', [2])
+    out = I.new_obj(512, 'out', 'heap'); ol = I.new_obj(4, 'ol', 'heap'); c = I.new_obj(4, 'cuts', 'heap')
+    rc = I.concretize(I.call('@verif_o5m_run', [data, len(f), c, 0, out, 512, ol]), 'rc'); I.observe('rc', rc)
+    I.call('@verif_set_summary', [0])
+    if rc != 0: raise Finding('rejects-valid', 'spec-conformant o5m file rejected (rc=%d)' % rc)
+    n = I.concretize(I.load(ol, i32), 'n'); I.observe('dumplen', n)
+    if n != 89 + 88 + 88: raise Finding('object-count', 'dump has %d bytes, expected three nodes' % n)
+    d = {nm: unzigzag_term(I.term(v, 7)) for nm, v in z.items()}
+    W = lambda base, k: I.term(I.load(out + base + 8 * k, i64), 64)
+    ids = [d['id1'], d['id1'] + d['id2'], (d['id3'] if job['reset'] else d['id1'] + d['id2'] + d['id3'])]
+    lons = [d['lon1'], d['lon1'] + d['lon2'], (d['lon3'] if job['reset'] else d['lon1'] + d['lon2'] + d['lon3'])]
+    lats = [d['lat1'], d['lat1'] + d['lat2'], (d['lat3'] if job['reset'] else d['lat1'] + d['lat2'] + d['lat3'])]
+    bases = [0, 89, 89 + 88]
+    for k in range(3):
+        xoff = bases[k] + (65 if k == 0 else 64)
+        I.obligation(W(bases[k], 1) == ids[k], 'delta-id', 'node %d: id is not the running sum of the deltas%s' % (k + 1, ' (restarting after the reset marker)' if job['reset'] else ''))
+        I.obligation(z3.Extract(31, 0, I.term(I.load(out + xoff, i64), 64)) == z3.Extract(31, 0, lons[k]), 'delta-lon', 'node %d: longitude is not the running sum of the deltas' % (k + 1))
+        I.obligation(z3.Extract(31, 0, I.term(I.load(out + xoff + 8, i64), 64)) == z3.Extract(31, 0, lats[k]), 'delta-lat', 'node %d: latitude is not the running sum of the deltas' % (k + 1))
+    I.obligation(W(0, 2) == 1, 'version', 'node 1: version')
+    I.obligation(z3.Extract(31, 0, W(0, 4)) == z3.Extract(31, 0, d['ts1']), 'timestamp', 'node 1: timestamp is not the decoded delta')
+    I.obligation(z3.Extract(31, 0, W(0, 5)) == z3.Extract(31, 0, d['cs1']), 'changeset', 'node 1: changeset is not the decoded delta')
+    I.obligation(W(0, 6) == 5, 'uid', 'node 1: uid'); I.obligation(W(0, 7) == 1, 'user', 'node 1: user name length')
+    I.reach('end')
+
+
 def gen28(names):
     def g(rnd):
         return [{n: rnd.choice([0, 1, 2, 3, (1 << 28) - 1, rnd.getrandbits(28), rnd.getrandbits(10)]) for n in names} for _ in range(12)]
@@ -206,5 +243,8 @@ def harnesses(tier):
         Harness('pbf_dense_info', 'decode', h_dense_info, jobs=[dict(date_gran=d, visible=v) for (d, v) in ((1000, 0), (1, 1), (37, 1), (60000, 0))],
                 desc='two dense nodes with DenseInfo: versions copied, timestamps / changesets / uids are running sums of symbolic zig-zag deltas, timestamp = sum * date_granularity / 1000 (converted once, not per delta), visible flags, user from the string table, invisible node has no location',
                 bounds='2 nodes; deltas 28-bit symbolic; date_granularity in {1, 37, 1000, 60000}', testgen=lambda rnd: [dict(t, ver0=rnd.randint(0, 9), ver1=rnd.randint(0, 9), vis1=rnd.getrandbits(1), _job=rnd.randint(0, 3)) for t in gen28(['zts0', 'zts1', 'zcs0', 'zcs1', 'zuid0', 'zuid1'])(rnd)]),
+        Harness('o5m_delta_chains', 'chunk', h_o5m_deltas, jobs=[dict(reset=0), dict(reset=1)], setup=__import__('C06').setup_env,
+                desc='O5mParser on a file of three nodes with symbolic zig-zag deltas for id, longitude, latitude, timestamp and changeset, author information with inline user string, with and without a reset marker before the third node: every value is the running sum of its deltas and restarts at 0 after a reset',
+                bounds='3 nodes, one-byte (7-bit) zig-zag deltas', testgen=lambda rnd: [dict(_job=rnd.randint(0, 1), **{nm: rnd.randint(1, 127) for nm in ('id1', 'id2', 'id3', 'lon1', 'lon2', 'lon3', 'lat1', 'lat2', 'lat3', 'ts1', 'cs1')}) for _ in range(6)]),
     ]
     return hs
